@@ -42,16 +42,16 @@ Check C02_reparses_def : forall ts, reparses ts <->
   forall v, ground v -> exists v',
     advance v (ser_all ts) = (v', flat_map acts_of ts) /\ ground v' /\
     forall r l rz,
-      process (mkParser v r l rz) (ser_all ts) =
-      (do '(r', evs) <- perform_all rz r (flat_map acts_of ts) []; Ok (mkParser v' r' (l ++ evs) rz)).
+      process (mkParser v r l rz []) (ser_all ts) =
+      (do '(r', evs) <- perform_all rz r (flat_map acts_of ts) []; Ok (mkParser v' r' (l ++ evs) rz [])).
 Print Assumptions C02_reparses_def.
 Check C02_bytes : forall s p ts v,
   screen_ok s -> screen_wf s -> screen_attrs_ok s -> pen_ok (pen p) -> contents_diff_t s p = Ok ts -> ground v ->
   exists v',
     advance v (ser_all ts) = (v', flat_map acts_of ts) /\ ground v' /\
     forall r l rz,
-      process (mkParser v r l rz) (ser_all ts) =
-      (do '(r', evs) <- perform_all rz r (flat_map acts_of ts) []; Ok (mkParser v' r' (l ++ evs) rz)).
+      process (mkParser v r l rz []) (ser_all ts) =
+      (do '(r', evs) <- perform_all rz r (flat_map acts_of ts) []; Ok (mkParser v' r' (l ++ evs) rz [])).
 Print Assumptions C02_bytes.
 Check C02_no_panic : forall s p, screen_ok s -> screen_ok p ->
   (exists ts, contents_diff_t s p = Ok ts) /\ (exists ts, state_diff_t s p = Ok ts).
@@ -149,6 +149,7 @@ Check C02sem_snap_ok_def : forall rows cols s, snap_ok rows cols s <->
 Print Assumptions C02sem_snap_ok_def.
 Check C02sem_chain_step : forall rows cols snaps prev r,
   snap_ok rows cols prev -> Forall (snap_ok rows cols) snaps ->
+  pend r = [] ->   
   ground (vt r) -> shows prev (scr r) (live (cur prev)) -> same_modes prev (scr r) ->
   exists r', diff_chain r prev snaps = Ok r' /\ log r' = log r /\ ground (vt r') /\
              shows (last_snap prev snaps) (scr r') (live (cur (last_snap prev snaps))) /\
@@ -264,6 +265,7 @@ Print Assumptions C02sem_K_chain.
 Check C02sem_K_chain_step : forall rows cols snaps prev r,
   reachable prev -> sb_off (cur prev) = 0 -> grows (cur prev) = rows -> gcols (cur prev) = cols ->
   chain_K rows cols prev snaps ->
+  pend r = [] ->   
   ground (vt r) -> shows prev (scr r) (live (cur prev)) -> same_modes prev (scr r) ->
   exists r', diff_chain r prev snaps = Ok r' /\ log r' = log r /\ ground (vt r') /\
              shows (last_snap prev snaps) (scr r') (live (cur (last_snap prev snaps))) /\
@@ -350,6 +352,7 @@ Check C02sem_all_chain : forall rows cols S0 snaps,
 Print Assumptions C02sem_all_chain.
 Check C02sem_all_chain_step : forall rows cols snaps prev r,
   snap_all rows cols prev -> Forall (snap_all rows cols) snaps ->
+  pend r = [] ->   
   ground (vt r) -> shows prev (scr r) (live (cur prev)) -> same_modes prev (scr r) ->
   exists r', diff_chain r prev snaps = Ok r' /\ log r' = log r /\ ground (vt r') /\
              shows (last_snap prev snaps) (scr r') (live (cur (last_snap prev snaps))) /\
